@@ -85,7 +85,40 @@ ASSUMPTIONS = [
     "listener.queue_get_timeout (public attribute) is lowered for listeners "
     "that are stopped per example, only to make stop() fast",
 ]
-SENSITIVITY = []
+SENSITIVITY = [
+    "send_http_error() without end_headers() -> no-response:connection-"
+    "closed-without-traceback (all sub-checks)",
+    "invalid_method() writes a body without Content-Length -> response:"
+    "body-in-HEAD-response (requests, sequences)",
+    "unknown export method answered with send_success_response() -> expect:"
+    "unknown-method-answered-with-success",
+    "Content-Length of the CIM-XML error response counted in characters "
+    "instead of bytes -> response:bytes-after-the-response + response-body:"
+    "ill-formed-expat (non-ASCII method name / parameter name echoed)",
+    "Content-Encoding check disabled -> expect:unsupported-version-or-"
+    "header-mismatch-answered-200-success",
+    "queue.Full no longer caught in do_POST -> queue_full/no-response:Full@"
+    "_listener:_handle_indication:... + queue:valid-indication-not-answered-"
+    "200",
+    "'len(params) != 1' dropped from the parameter check -> expect:wrong-"
+    "parameters-answered-with-success",
+    "'except DTDVersionError' branch removed -> no-response:DTDVersionError@"
+    "_tupleparse:parse_cim:raiseDTDVersionError",
+    "ThreadedHTTPServer without ThreadingMixIn -> sequences/no-response:"
+    "read-timeout-after-half-close + no-response:connection-not-accepted (a "
+    "stalled connection blocks valid indications)",
+    "_handle_indication() queues some indications twice -> indication-"
+    "delivered-more-than-once",
+    "Accept-Charset compared case-sensitively without '*' -> expect:valid-"
+    "indication-rejected-with-406-header-mismatch",
+    "non-instance NewIndication answered with success -> expect:wrong-"
+    "parameters-answered-with-success",
+    "(on top of the proposed fix) header value sanitizer keeps LF -> "
+    "response-header:raw-CR-or-LF-inside-CIMErrorDetails",
+    "exception escaping _deliver_indication_to_callbacks kills the callback "
+    "thread -> accepted-indication-not-delivered + survival:accepted-"
+    "indication-not-delivered + listener-thread-died",
+]
 
 MARKER = 'VerifMarker'
 IO_TIMEOUT = 12.0          # s; stop condition for a read that never ends
@@ -621,7 +654,8 @@ VERSION_UNSUPPORTED = {'CIMVERSION': ['3.0', '1.0', '1.2', '20.0'],
                        'DTDVERSION': ['3.0', '1.0', '1.1', '20.0'],
                        'PROTOCOLVERSION': ['2.0', '0.9', '3.0', '10.0']}
 VERSION_ODD = ['abc', '', '2', '2x', ' 2.0', '2,0', '.', '2.€', '2.0.1',
-               '1', '1.', '2.', 'x' * 300, '2.0\n', '-2.0']
+               '1', '1.', '2.', 'x' * 300, '2.0\n', '-2.0', '€', '\u4e2d.0',
+               '\u03a92.0', '3.€', '\u0662.\u0660', '\U0001F600', 'v2.0\u2028']
 METHODS_UNKNOWN = ['ExportIndications', 'DeliverIndication', 'Foo',
                    'Export', 'GetInstance', 'X' * 500, 'Foo€', 'F\xe9',
                    'Foo\U0001F600', 'a b', 'Foo\nBar', '<&>"\'']
@@ -747,7 +781,10 @@ def _g_cl_defect(draw):
 
 def _g_xml_defect(draw):
     "-> (name, payload)"
-    k = draw(st.integers(0, 17))
+    k = draw(st.integers(0, 19))
+    if k >= 18:
+        a = _pick(draw, ['CIMVERSION', 'DTDVERSION', 'PROTOCOLVERSION'])
+        return ('version-odd', (a, _pick(draw, VERSION_ODD)))
     if k == 16:
         return ('unicode-tag', (_pick(draw, [
             'INSTANCE', 'PROPERTY', 'EXPPARAMVALUE', 'EXPMETHODCALL',
@@ -755,7 +792,8 @@ def _g_xml_defect(draw):
             _pick(draw, UNICODE_NAMES)))
     if k == 17:
         return ('unicode-attr', (_pick(draw, [
-            'TYPE="', 'CLASSNAME="', 'NAME="', 'ID="', 'CIMVERSION="']),
+            'TYPE="', 'CLASSNAME="', 'NAME="', 'ID="', 'CIMVERSION="',
+            'DTDVERSION="', 'PROTOCOLVERSION="']),
             _pick(draw, UNICODE_NAMES), draw(st.booleans())))
     if k <= 2:
         return ('tree', [draw(R._MUT) for _ in
